@@ -41,3 +41,9 @@ def run(rep, tier):
         tier_table(rep, "T6-inverse", "insertSpace", "interval", k, gap, ["stretch", "split"], compose,
                    lambda O, ents, m, M, sy, mode: {"class": "IntervalTier", "entries": list(ents), "min": m, "max": M},
                    "insertSpace;eraseRegion on %d generic entries" % k, seams=True)
+
+    # the textgrid-level operation (shared with C12): same names, same order, each tier equal to the tier operation
+    from .c12 import lifting
+    rep.rule("L-lifting-insertSpace", "Textgrid.insertSpace on a generic textgrid (including an empty tier): per-tier result equals the tier-level insertSpace, every tier shares the lengthened span")
+    for shape in ([("interval", "I", 1), ("point", "E", 0)], [("interval", "E", 0), ("point", "P", 1)]):
+        lifting(rep, shape, only="insertSpace")
